@@ -200,14 +200,41 @@ def make_step(rng, ids: gen.Ids, existing: List[Dict[str, Any]], member_pool: Li
                 cands.append((k, m))
         rng.shuffle(cands)
         for k, m in cands[:1]:
-            if m["kind"] == "pget":
+            if m["kind"] == "pget" and rng.random() < 0.4:
+                # the getter of an inherited property re-used for a property of the new class, under its own name or under the name of
+                # another property of the ancestors
+                others = [m2["name"] for _k2, m2 in cands if m2["kind"] == "pget" and m2["name"] != m["name"]]
+                alias_name = rng.choice(others) if others and rng.random() < 0.7 else ids.new("m")
+                class_body.append("{} = property({}.{}.fget)".format(alias_name, k, m["name"]))
+                aliases.append({"name": alias_name, "kind": "pget", "params": m["params"], "decos": []})
+            elif m["kind"] == "pget":
                 ext = gen.make_member(ids, rng, "pset", m["name"], False, rng.randint(0, 1) if False else 0, rng.randint(0, 1), 0,
                                       forms=["def", "lambda"], errs=["instance", "default"], params=[prog.P("self"), prog.P("value")])
                 ext["ext_of"] = k
                 members.append(ext)
             elif m["kind"] == "method":
-                class_body.append("{} = {}.{}".format(m["name"], k, m["name"]))
-                aliases.append({"name": m["name"], "kind": "method", "params": m["params"], "decos": []})
+                # under its own name, under the name of ANOTHER method of the ancestors (which it overrides thereby), or under a new name
+                others = [m2["name"] for _k2, m2 in cands if m2["kind"] == "method" and m2["name"] != m["name"]]
+                how = rng.random()
+                alias_name = m["name"]
+                if how < 0.35 and others:
+                    alias_name = rng.choice(others)
+                elif how < 0.45:
+                    alias_name = ids.new("m")
+                class_body.append("{} = {}.{}".format(alias_name, k, m["name"]))
+                aliases.append({"name": alias_name, "kind": "method", "params": m["params"], "decos": []})
+    if existing and rng.random() < 0.08:
+        # a method of an UNRELATED class re-used as it is (possibly under a name which the bases of the new class know as well)
+        model = _Model({"classes": existing})
+        related = {k for b in bases for k in model.mro(b)}
+        donors = [(c["name"], m) for c in existing if c["name"] not in related for m in c.get("members", []) if m["kind"] == "method"]
+        if donors:
+            k, m = rng.choice(donors)
+            inherited = [m2["name"] for b in bases for k2 in model.mro(b) for m2 in model.classes[k2].get("members", []) if m2["kind"] == "method"]
+            alias_name = rng.choice(inherited) if inherited and rng.random() < 0.6 else m["name"]
+            if not any(a["name"] == alias_name for a in aliases):
+                class_body.append("{} = {}.{}".format(alias_name, k, m["name"]))
+                aliases.append({"name": alias_name, "kind": "method", "params": m["params"], "decos": []})
     for _ in range(rng.randint(0, 2)):
         if member_pool and rng.random() < 0.65:
             mname, kind = rng.choice(member_pool)
@@ -273,7 +300,42 @@ def affected_by_decoration(d: Dict[str, Any], ent: "Entity", class_specs: List[D
     if not ent.is_class:
         return False
     model = Model({"classes": class_specs})
-    return d["cls"] in model.mro(ent.name)
+    if d["cls"] in model.mro(ent.name):
+        return True
+    if "member" not in d:
+        return False
+    # ... and so does every class which holds the very function object that is decorated (``name = Other.member`` in its body or in
+    # the body of one of its ancestors): whoever decorates a shared function decorates it for all its holders
+    specs = {c["name"]: c for c in class_specs}
+
+    def aliases_of(cname):
+        out = {}
+        for line in specs[cname].get("class_body", []):
+            alias, _, donor = line.partition(" = ")
+            if not donor.startswith("property("):
+                out[alias] = tuple(donor.split("."))
+        return out
+
+    def identity(cname, name, depth=0):
+        """The class whose body defined the function found as ``cname.name``."""
+        if depth > 20:
+            return None
+        for k in model.mro(cname):
+            if name in aliases_of(k):
+                donor, donor_name = aliases_of(k)[name]
+                return identity(donor, donor_name, depth + 1)
+            if any(m["name"] == name for m in specs[k].get("members", [])):
+                return (k, name)
+        return None
+
+    decorated = identity(d["cls"], d["member"])
+    if decorated is None:
+        return False
+    for k in model.mro(ent.name):
+        for alias in aliases_of(k):
+            if identity(k, alias) == decorated:
+                return True
+    return False
 
 
 def classify(hist: List[Dict[str, Any]], victim: Entity, culprit_step: Dict[str, Any], changed: str) -> str:
@@ -284,6 +346,9 @@ def classify(hist: List[Dict[str, Any]], victim: Entity, culprit_step: Dict[str,
     if "decorate" in culprit_step:
         # mechanism: the checker of an overriding member shares (precondition group) lists with the checker of the base member
         return "C17/contract-added-to-override-afterwards-leaks-into-base"
+    if "name" in culprit_step and any(line.split(" = ")[0] != line.split(".")[-1].rstrip(")") for line in culprit_step.get("class_body", [])):
+        # the culprit re-uses a function object of another class under another name / from an unrelated hierarchy
+        return "C17/reused-member-of-another-class-merged-with-the-contracts-of-the-new-bases"
     if "name" in culprit_step and victim.is_class and changed in ("__invariants_on_setattr__", "__invariants_on_call__", "__invariants__", "behaviour"):
         # the culprit is a subclass (direct or indirect) of the victim decorated with an invariant of a check_on kind for
         # which the victim's own list is empty (so the subclass found the base's empty list through attribute lookup)
@@ -464,7 +529,80 @@ def fixed_histories_late_preconditions():
             ]
 
 
+def fixed_histories_joins():
+    """A class which joins a base that states no precondition for a member (it accepts every call) with a base that does, in both
+    orders, and overrides the member (every kind of member, accessors of properties included): both bases keep what they stated."""
+    params = {"method": [prog.P("self"), prog.P("x")], "static": [prog.P("x")], "class": [prog.P("cls"), prog.P("x")],
+              "pget": [prog.P("self")], "pset": [prog.P("self"), prog.P("value")], "pdel": [prog.P("self")]}
+    first_arg = {"method": "x", "static": "x", "class": "x", "pget": "self", "pset": "value", "pdel": "self"}
+
+    def cls(name, bases, kind, decos):
+        members = []
+        if kind in ("pset", "pdel"):
+            members.append({"name": "m_j", "kind": "pget", "async": False, "params": params["pget"], "decos": []})
+        members.append({"name": "m_j", "kind": kind, "async": False, "params": params[kind], "decos": decos})
+        return {"name": name, "bases": list(bases), "dbc": True, "invs": [], "class_body": [], "aliases": [], "members": members}
+
+    for kind in ("method", "static", "class", "pget", "pset", "pdel"):
+        def pre(cid):
+            return ["pre", {"id": cid, "form": "def", "args": [first_arg[kind]], "err": "instance"}]  # pylint: disable=cell-var-from-loop
+
+        def post(cid):
+            return ["post", {"id": cid, "form": "def", "args": ["result"], "err": "instance"}]
+
+        for order in (["KT", "KS"], ["KS", "KT"]):
+            for own_tag, own in (("plain-override", []), ("override-with-postcondition", [post("ej")])):
+                yield ("join-of-an-accept-all-base-and-a-base-with-preconditions", kind, "-".join(order), own_tag), [
+                    cls("KT", [], kind, [post("et")]), cls("KS", [], kind, [pre("rs"), post("es")]), cls("KU", [], kind, [pre("ru")]),
+                    cls("KJ", order, kind, own), cls("KV", ["KU"] + order, kind, own),
+                ]
+
+
+def fixed_histories_reuse():
+    """A member of an existing class re-used as it is in a new class: under the name of another member of the ancestors (which it
+    overrides thereby), or in an unrelated hierarchy whose bases declare contracts for that name. The class which defined the
+    function shares it with the new class - and keeps its contracts."""
+    def pre(cid, arg):
+        return ["pre", {"id": cid, "form": "def", "args": [arg], "err": "instance"}]
+
+    def post(cid):
+        return ["post", {"id": cid, "form": "def", "args": ["result"], "err": "instance"}]
+
+    for kind, arg, params in (("method", "x", [prog.P("self"), prog.P("x")]), ("pget", "self", [prog.P("self")])):
+        def member(name, decos):
+            return {"name": name, "kind": kind, "async": False, "params": params, "decos": decos}  # pylint: disable=cell-var-from-loop
+
+        def cls(name, bases, members, class_body=(), aliases=()):
+            return {"name": name, "bases": list(bases), "dbc": True, "invs": [], "class_body": list(class_body),
+                    "aliases": [member(a, []) for a in aliases], "members": members}
+
+        donor = "KA.m_a" if kind == "method" else "property(KA.m_a.fget)"
+        yield ("member-re-used-under-the-name-of-another-member", kind), [
+            cls("KA", [], [member("m_a", [pre("ra", arg), post("ea")]), member("m_b", [pre("rb", arg), post("eb")])]),
+            cls("KB", ["KA"], [], ["m_b = " + donor], ["m_b"]),
+            cls("KC", ["KA"], [], ["m_c = " + donor], ["m_c"]),
+        ]
+        yield ("member-re-used-in-an-unrelated-hierarchy", kind), [
+            cls("KA", [], [member("m_a", [pre("ra", arg), post("ea")])]),
+            cls("KU", [], [member("m_a", [pre("ru", arg), post("eu")]), member("m_b", [post("ev")])]),
+            cls("KD", ["KU"], [], ["m_a = " + donor], ["m_a"]),
+            cls("KE", ["KU"], [], ["m_b = " + donor], ["m_b"]),
+        ]
+
+
 def run(w) -> None:
+    if w.shard == 3 % w.nshards:
+        for meta, hist in fixed_histories_reuse():
+            w.count("histories")
+            w.count("fixed_histories")
+            w.fixed_meta = meta
+            replay({"history": hist, "fixed": list(meta)}, w)
+    if w.shard == 2 % w.nshards:
+        for meta, hist in fixed_histories_joins():
+            w.count("histories")
+            w.count("fixed_histories")
+            w.fixed_meta = meta
+            replay({"history": hist, "fixed": list(meta)}, w)
     if w.shard == 1 % w.nshards:
         for meta, hist in fixed_histories_late_preconditions():
             w.count("histories")
